@@ -94,7 +94,10 @@ def setOpLoop (E : Env) (k : SetOpKind) (retTy ety : Ty) : List Value → SetImp
       if !k.allowUnknowns && !arg.whollyKnown then .ok none
       else
         (match asValueSet E arg with
-         | .ok (_, argSet) => setOpLoop E k retTy ety rest (k.run (setRules E ety) set argSet)
+         | .ok (ety', argSet) =>
+           -- `mustHaveSameRules`: `setRules{ety}.SameRules(setRules{ety'})` is `ety.Equals(ety')`
+           if !(ety.equals ety') then .panic "incompatible set rules"
+           else setOpLoop E k retTy ety rest (k.run (setRules E ety) set argSet)
          | r => Res.cast r)
     | r => Res.cast r
 
